@@ -203,11 +203,11 @@ int disasm_dspic(
 
           if (lit == 0)
           {
-            snprintf(instruction, length, "%s%s %c, %s", table_dspic[n].name, bflag[b], accum[a], temp);
+            snprintf(instruction, length, "%s%s %c, %s", table_dspic[n].name, (b == 0) ? "" : ".r", accum[a], temp);
           }
             else
           {
-            snprintf(instruction, length, "%s%s %c, #%d, %s", table_dspic[n].name, bflag[b], accum[a], lit, temp);
+            snprintf(instruction, length, "%s%s %c, #%d, %s", table_dspic[n].name, (b == 0) ? "" : ".r", accum[a], lit, temp);
           }
           return 4;
         case OP_ACC_LIT6:
